@@ -11,7 +11,7 @@ from .. import common as cm
 from ..translate import TranslationError
 
 PROP = 'C07'
-GENERATED = ['AtomStyles']
+GENERATED = ['AtomStyles', 'WriterSource']
 
 # ----------------------------------------------------------------------------------------
 # translator: atom_style -> column tables, dump standard columns, unit-style table
@@ -246,6 +246,841 @@ def extract_tables():
     return out
 
 
+# ----------------------------------------------------------------------------------------
+# translator, second part: the writer code itself (atom_data/dump.py, atom_dump/dump.py, poscar/dump.py,
+# table/dump.py) -> Generated/WriterSource.lean.  The functions are walked with `ast`, statement by statement: every
+# statement must have one of the shapes listed in the walkers below, anything else is a TranslationError.  The text a
+# writer builds is evaluated symbolically (pieces: literal text, %i of an integer, float_format % number, a string
+# argument, a list of words, a block of lines that another function returns) and cut at '\n' into lines and at ' ' into
+# words -- exactly the (line, word) structure the model's documents have, so `renderLines` / `renderJoin` of the
+# generated document IS the text the Python code concatenates.
+# ----------------------------------------------------------------------------------------
+
+def _u(n):
+    return ast.unparse(n)
+
+
+def _fail(what, n=None):
+    raise TranslationError(what + (f': {_u(n)[:160]}' if n is not None else ''))
+
+
+def _module(rel):
+    try:
+        return ast.parse(cm.source(rel))
+    except SyntaxError as e:
+        raise TranslationError(f'{rel}: {e}')
+
+
+def _func(tree, name, rel):
+    fns = [n for n in tree.body if isinstance(n, ast.FunctionDef) and n.name == name]
+    if len(fns) != 1:
+        _fail(f'{rel}: function {name} found {len(fns)} times')
+    return fns[0]
+
+
+def _stmts(fn):
+    body = list(fn.body)
+    if body and isinstance(body[0], ast.Expr) and isinstance(body[0].value, ast.Constant) and isinstance(body[0].value.value, str):
+        body = body[1:]
+    return body
+
+
+def _signature(fn):
+    """[(argument, default as source text | '<required>')] in order."""
+    a = fn.args
+    if a.vararg or a.kwarg or a.kwonlyargs or a.posonlyargs:
+        _fail(f'{fn.name}: unsupported kind of parameter')
+    names = [x.arg for x in a.args]
+    defaults = [None] * (len(names) - len(a.defaults)) + list(a.defaults)
+    return [(n, '<required>' if d is None else _u(d)) for n, d in zip(names, defaults)]
+
+
+def _is(n, src):
+    """does the node read exactly like `src` (normalised through ast.unparse)?"""
+    return _u(n) == _u(ast.parse(src, mode='eval').body)
+
+
+def _is_stmt(n, src):
+    return _u(n) == _u(ast.parse(src).body[0])
+
+
+_V3C = ('x', 'y', 'z')
+
+
+class _Text:
+    """symbolic evaluation of the string expressions of one writer."""
+
+    def __init__(self, where, strvars=None, numvars=None, intvars=None, v3vars=None, blocks=None, splices=None, conds=None):
+        self.where = where
+        self.templates = {}                       # name -> pieces with ('FMT',) holes
+        self.strvars = dict(strvars or {})        # python name -> ('tok' | 'words', lean expr)
+        self.numvars = dict(numvars or {})        # python name -> lean Rat expr
+        self.intvars = dict(intvars or {})        # python source text -> (kind 'int'|'nat', lean expr)
+        self.v3vars = dict(v3vars or {})          # python source text -> lean V3 expr
+        self.blocks = dict(blocks or {})          # python call name -> handler(call node) -> lean Doc expr
+        self.splices = dict(splices or {})        # python source text -> (lean List Tok expr)
+        self.conds = dict(conds or {})            # python source text of a condition -> lean Prop/Bool expr
+        self.special = {}                         # source text of a statement -> the pieces it adds
+        self.started = False
+
+    # -- numbers -------------------------------------------------------------------------
+    def num(self, n):
+        if isinstance(n, ast.Name) and n.id in self.numvars:
+            return n.id if self.numvars[n.id] is True else self.numvars[n.id]
+        if isinstance(n, ast.Constant) and isinstance(n.value, (int, float)) and not isinstance(n.value, bool):
+            fr = Fraction(n.value)
+            if fr.denominator != 1:
+                _fail(f'{self.where}: non-integer constant', n)
+            return str(fr.numerator)
+        if isinstance(n, ast.BinOp) and isinstance(n.op, (ast.Add, ast.Sub, ast.Mult, ast.Div)):
+            op = {ast.Add: '+', ast.Sub: '-', ast.Mult: '*', ast.Div: '/'}[type(n.op)]
+            return f'({self.num(n.left)} {op} {self.num(n.right)})'
+        if isinstance(n, ast.Call) and isinstance(n.func, ast.Name) and n.func.id in ('min', 'max') and len(n.args) == 1 \
+                and isinstance(n.args[0], (ast.Tuple, ast.List)) and n.args[0].elts and not n.keywords:
+            el = [self.num(e) for e in n.args[0].elts]
+            return f'({"listMin" if n.func.id == "min" else "listMax"} 0 [{", ".join(el)}])'
+        _fail(f'{self.where}: unsupported numeric expression', n)
+
+    def cond(self, n):
+        s = _u(n)
+        if s in self.conds:
+            return self.conds[s]
+        if isinstance(n, ast.BoolOp):
+            op = ' ∧ ' if isinstance(n.op, ast.And) else ' ∨ '
+            return '(' + op.join(self.cond(v) for v in n.values) + ')'
+        if isinstance(n, ast.UnaryOp) and isinstance(n.op, ast.Not):
+            return f'(¬ {self.cond(n.operand)})'
+        if isinstance(n, ast.Compare) and len(n.ops) == 1:
+            ops = {ast.Eq: '=', ast.NotEq: '≠', ast.Lt: '<', ast.LtE: '≤', ast.Gt: '>', ast.GtE: '≥'}
+            if type(n.ops[0]) in ops:
+                return f'({self.num(n.left)} {ops[type(n.ops[0])]} {self.num(n.comparators[0])})'
+        _fail(f'{self.where}: unsupported condition', n)
+
+    # -- format templates ----------------------------------------------------------------
+    def template(self, n):
+        if isinstance(n, ast.Name) and n.id == 'float_format':
+            return [('FMT',)]
+        if isinstance(n, ast.Name) and n.id in self.templates:
+            return list(self.templates[n.id])
+        if isinstance(n, ast.Constant) and isinstance(n.value, str):
+            out, s = [], n.value
+            while '%i' in s:
+                k = s.index('%i')
+                if s[:k]:
+                    out.append(('lit', s[:k]))
+                out.append(('INT',))
+                s = s[k + 2:]
+            if '%' in s:
+                _fail(f'{self.where}: unsupported conversion in format', n)
+            if s:
+                out.append(('lit', s))
+            return out
+        if isinstance(n, ast.BinOp) and isinstance(n.op, ast.Add):
+            return self.template(n.left) + self.template(n.right)
+        _fail(f'{self.where}: unsupported format template', n)
+
+    def args(self, n):
+        """the values handed to `%`: [('num', lean) | ('int', kind, lean)]"""
+        if isinstance(n, ast.Tuple):
+            return [a for e in n.elts for a in self.args(e)]
+        s = _u(n)
+        if isinstance(n, ast.Call) and isinstance(n.func, ast.Name) and n.func.id == 'tuple' and len(n.args) == 1 \
+                and _u(n.args[0]) in self.v3vars:
+            v = self.v3vars[_u(n.args[0])]
+            return [('num', f'{v}.{c}') for c in _V3C]
+        if s in self.intvars:
+            return [('int',) + tuple(self.intvars[s])]
+        return [('num', self.num(n))]
+
+    # -- text ----------------------------------------------------------------------------
+    def text(self, n):
+        if isinstance(n, ast.Constant) and isinstance(n.value, str):
+            return [('lit', n.value)] if n.value else []
+        if isinstance(n, ast.JoinedStr):
+            out = []
+            for v in n.values:
+                if isinstance(v, ast.Constant):
+                    out.append(('lit', v.value))
+                elif isinstance(v, ast.FormattedValue) and v.conversion == -1 and v.format_spec is None:
+                    out += self.strvalue(v.value)
+                else:
+                    _fail(f'{self.where}: unsupported f-string part', v)
+            return out
+        if isinstance(n, ast.BinOp) and isinstance(n.op, ast.Add):
+            return self.text(n.left) + self.text(n.right)
+        if isinstance(n, ast.BinOp) and isinstance(n.op, ast.Mod):
+            t, a = self.template(n.left), self.args(n.right)
+            out = []
+            for p in t:
+                if p[0] == 'lit':
+                    out.append(p)
+                    continue
+                if not a:
+                    _fail(f'{self.where}: too few values for the format', n)
+                v = a.pop(0)
+                if p[0] == 'FMT' and v[0] == 'num':
+                    out.append(('num', v[1]))
+                elif p[0] == 'INT' and v[0] == 'int':
+                    out.append(('int', v[1], v[2]))
+                else:
+                    _fail(f'{self.where}: a {p[0]} conversion is given a {v[0]} value', n)
+            if a:
+                _fail(f'{self.where}: too many values for the format', n)
+            return out
+        if isinstance(n, ast.Call) and isinstance(n.func, ast.Attribute) and n.func.attr == 'join' and len(n.args) == 1 \
+                and isinstance(n.func.value, ast.Constant) and not n.keywords:
+            sep = n.func.value.value
+            if sep == ' ' and _u(n.args[0]) in self.splices:
+                return [('splice', self.splices[_u(n.args[0])])]
+            if sep == '\n' and isinstance(n.args[0], ast.List):
+                out = []
+                for k, e in enumerate(n.args[0].elts):
+                    if k:
+                        out.append(('lit', '\n'))
+                    out += self.text(e)
+                return out
+        if isinstance(n, ast.Call) and isinstance(n.func, ast.Name) and n.func.id in self.blocks:
+            return [('block', self.blocks[n.func.id](n))]
+        if isinstance(n, ast.Name):
+            return self.strvalue(n)
+        _fail(f'{self.where}: unsupported text expression', n)
+
+    def strvalue(self, n):
+        s = _u(n)
+        if s in self.strvars:
+            kind, lean = self.strvars[s]
+            if kind == 'pieces':
+                return list(lean)
+            return [(kind if kind in ('tok', 'rawtok') else 'splice', lean)]
+        _fail(f'{self.where}: string value not known to the model', n)
+
+
+def _lean_chars(s):
+    if not re.fullmatch(r'[A-Za-z0-9_:#\-\.]+', s):
+        raise TranslationError(f'literal word {s!r} outside the supported alphabet')
+    return f'cs!"{s}"'
+
+
+def _tokens(where, atoms):
+    """one line (pieces without line breaks) -> lean expression of type Line; words are what str.split(' ') gives."""
+    segs = []            # ('one', lean Tok) | ('many', lean List Tok)
+    cur = ''             # '' empty word so far | str literal word | ('val', lean) | None = just after a splice
+
+    def push():
+        nonlocal cur
+        if cur is None:
+            pass
+        elif cur == '':
+            segs.append(('one', '[]'))
+        elif isinstance(cur, str):
+            segs.append(('one', _lean_chars(cur)))
+        else:
+            segs.append(('one', cur[1]))
+        cur = ''
+
+    if not atoms:
+        return '[]'
+    for p in atoms:
+        if p[0] == 'lit':
+            for ch in p[1]:
+                if ch == ' ':
+                    push()
+                elif cur is None or isinstance(cur, tuple):
+                    _fail(f'{where}: text {p[1]!r} directly after a value (no blank between them)')
+                else:
+                    cur += ch
+        elif p[0] in ('num', 'int', 'tok', 'rawtok'):
+            if cur != '':
+                _fail(f'{where}: a value directly after other text of the same word')
+            lean = {'num': lambda: f'fmtNum f {p[1]}', 'tok': lambda: f'strTok {p[1]}', 'rawtok': lambda: p[1],
+                    'int': lambda: f'{"intTok" if p[1] == "int" else "natTok"} {p[2]}'}[p[0]]()
+            cur = ('val', lean)
+        elif p[0] == 'splice':
+            if cur != '':
+                _fail(f'{where}: a list of words directly after other text of the same word')
+            segs.append(('many', p[1]))
+            cur = None
+        elif p[0] == 'splice+':            # every word followed by a blank: 'w1 w2 ... wn '
+            if cur != '':
+                _fail(f'{where}: a list of words directly after other text of the same word')
+            segs.append(('many', p[1]))
+            cur = ''
+        else:
+            _fail(f'{where}: a block of lines inside a line')
+    push()
+    out, run = [], []
+    for kind, lean in segs:
+        if kind == 'one':
+            run.append(lean)
+        else:
+            if run:
+                out.append('[' + ', '.join(run) + ']')
+                run = []
+            out.append(lean)
+    if run:
+        out.append('[' + ', '.join(run) + ']')
+    return ' ++ '.join(out)
+
+
+def _doc(where, pieces, joined, after_line=False):
+    """pieces of a whole text -> lean expression of type Doc.  `joined` False: every line ends with a line break
+    (renderLines); True: line breaks stand between lines (renderJoin), a block adds lines after the current one."""
+    parts = []
+    line = None if after_line else []     # words of the current line; None = no line is open (joined mode, after a block
+    #                                       or at the start of a branch that continues a text)
+
+    def close():
+        nonlocal line
+        parts.append(('line', _tokens(where, line)))
+        line = []
+
+    for p in pieces:
+        if p[0] == 'lit':
+            for k, ch in enumerate(p[1].split('\n')):
+                if k:
+                    if line is not None:
+                        close()
+                    line = []
+                if ch:
+                    if line is None:
+                        _fail(f'{where}: text directly after a block of lines')
+                    line.append(('lit', ch))
+        elif p[0] == 'block':
+            if joined:
+                if line is not None:
+                    close()
+                line = None
+            elif line:
+                _fail(f'{where}: a block of lines starts in the middle of a line')
+            parts.append(('block', p[1]))
+        else:
+            if line is None:
+                _fail(f'{where}: text directly after a block of lines')
+            line.append(p)
+    if joined:
+        if line is not None:
+            close()
+    elif line:
+        _fail(f'{where}: the text does not end with a line break')
+    out, run = [], []
+    for kind, lean in parts:
+        if kind == 'line':
+            run.append(lean)
+        else:
+            if run:
+                out.append('[' + ', '.join(run) + ']')
+                run = []
+            out.append(lean)
+    if run:
+        out.append('[' + ', '.join(run) + ']')
+    return ' ++\n    '.join(out) if out else '[]'
+
+
+def _flat(lean):
+    return lean.replace(' ++\n    ', ' ++ ')
+
+
+class _Subst(ast.NodeTransformer):
+    def __init__(self, name, value):
+        self.name, self.value = name, value
+
+    def visit_Name(self, n):
+        return ast.copy_location(ast.Constant(self.value), n) if n.id == self.name else n
+
+
+def _walk(T, stmts, var, other, joined=False):
+    """the statements that build the text held in `var` -> pieces.  `other(stmt)` must recognise (return True for) every
+    statement that is not one of: var = text, var += text, name = format template, if / for around such statements,
+    return."""
+    out = []
+    for st in stmts:
+        if _u(st) in T.special:
+            out += T.special[_u(st)]
+            continue
+        if isinstance(st, ast.Assign) and len(st.targets) == 1 and isinstance(st.targets[0], ast.Name):
+            name = st.targets[0].id
+            if name == var:
+                if T.started:
+                    _fail(f'{T.where}: {var} is assigned a second time', st)
+                T.started = True
+                out += T.text(st.value)
+                continue
+            if other(st):
+                continue
+            try:
+                T.templates[name] = T.template(st.value)
+                continue
+            except TranslationError:
+                _fail(f'{T.where}: statement outside the translated subset', st)
+        if isinstance(st, ast.AugAssign) and isinstance(st.op, ast.Add) and isinstance(st.target, ast.Name) and st.target.id == var:
+            out += T.text(st.value)
+            continue
+        if isinstance(st, ast.If) and not other(st):
+            c = T.cond(st.test)
+            a = _walk(T, st.body, var, other, joined)
+            b = _walk(T, st.orelse, var, other, joined)
+            if isinstance(c, tuple):               # ('match', option expr, bound name): `x is not None`-like tests
+                out.append(('block', f'(match {c[1]} with | some {c[2]} => {_flat(_doc(T.where, a, joined, joined)) if a else "[]"} '
+                                     f'| none => {_flat(_doc(T.where, b, joined, joined)) if b else "[]"})'))
+                continue
+            flat = all(p[0] != 'block' and (p[0] != 'lit' or '\n' not in p[1]) for p in a + b)
+            if flat:
+                lead = all(br and br[0][0] == 'lit' and br[0][1].startswith(' ') for br in (a, b))
+                if lead:
+                    a = [('lit', a[0][1][1:])] + a[1:]
+                    b = [('lit', b[0][1][1:])] + b[1:]
+                    out.append(('lit', ' '))
+                ta = _tokens(T.where, a) if a else '[]'
+                tb = _tokens(T.where, b) if b else '[]'
+                out.append(('splice', f'(if {c} then {ta} else {tb})'))
+            else:
+                out.append(('block', f'(if {c} then {_flat(_doc(T.where, a, joined, joined)) if a else "[]"} else '
+                                     f'{_flat(_doc(T.where, b, joined, joined)) if b else "[]"})'))
+            continue
+        if isinstance(st, ast.If):
+            continue
+        if isinstance(st, ast.For) and isinstance(st.target, ast.Name) and not st.orelse and not other(st):
+            if not (_is(st.iter, 'range(3)')):
+                _fail(f'{T.where}: unsupported loop', st)
+            for k in range(3):
+                body = [ast.fix_missing_locations(_Subst(st.target.id, k).visit(ast.parse(_u(s)).body[0])) for s in st.body]
+                out += _walk(T, body, var, other, joined)
+            continue
+        if isinstance(st, ast.For):
+            continue
+        if isinstance(st, ast.Return):
+            if not (isinstance(st.value, ast.Name) and st.value.id == var):
+                _fail(f'{T.where}: unexpected return', st)
+            continue
+        if other(st):
+            continue
+        _fail(f'{T.where}: statement outside the translated subset', st)
+    return out
+
+
+_HILO = ('xlo', 'xhi', 'ylo', 'yhi', 'zlo', 'zhi', 'xy', 'xz', 'yz')
+_PBC = {'system.pbc[0]': 'pbc.x', 'system.pbc[1]': 'pbc.y', 'system.pbc[2]': 'pbc.z'}
+
+
+def _box_value(st, T, lets, unit_src):
+    """name = uc.get_in_units(system.box.<attr>, <length unit>)  ->  let name := divBy lf b.<attr>"""
+    if isinstance(st, ast.Assign) and isinstance(st.value, ast.Call) and _is(st.value.func, 'uc.get_in_units') \
+            and len(st.value.args) == 2 and not st.value.keywords and _is(st.value.args[1], unit_src) \
+            and isinstance(st.value.args[0], ast.Attribute) and _is(st.value.args[0].value, 'system.box'):
+        attr = st.value.args[0].attr
+        if attr not in _HILO:
+            _fail('box value that is not one of xlo ... yz', st)
+        name = st.targets[0].id
+        T.numvars[name] = True
+        lets.append(f'  let {name} := divBy lf b.{attr}')
+        return True
+    return False
+
+
+def _route(stmts, var, where):
+    """the if / elif / else chain that hands the text over: evaluated for the three kinds of target.
+    -> ({'none' | 'path' | 'stream': 'return' | 'write' | 'nothing'}, file mode)"""
+    chains = [s for s in stmts if isinstance(s, ast.If) and _is(s.test, "hasattr(f, 'write')")]
+    if len(chains) != 1:
+        _fail(f'{where}: the hand-over of the text (hasattr(f, "write") ...) is not there exactly once')
+    mode = []
+
+    def action(body):
+        if len(body) == 1 and _is_stmt(body[0], f'f.write({var})'):
+            return 'write'
+        if len(body) == 1 and (_is_stmt(body[0], f'returns.append({var})') or _is_stmt(body[0], f'return {var}')):
+            return 'return'
+        if len(body) == 1 and isinstance(body[0], ast.With) and len(body[0].items) == 1 and len(body[0].body) == 1 \
+                and _is_stmt(body[0].body[0], f'fp.write({var})') and isinstance(body[0].items[0].context_expr, ast.Call) \
+                and _is(body[0].items[0].context_expr.func, 'open') and _is(body[0].items[0].optional_vars, 'fp') \
+                and body[0].items[0].context_expr.args and _is(body[0].items[0].context_expr.args[0], 'f') \
+                and len(body[0].items[0].context_expr.args) == 2 and isinstance(body[0].items[0].context_expr.args[1], ast.Constant):
+            mode.append(body[0].items[0].context_expr.args[1].value)
+            return 'write'
+        _fail(f'{where}: unsupported hand-over of the text', body[0] if body else None)
+
+    def run(node, target):
+        truth = {"hasattr(f, 'write')": target == 'stream', 'f is not None': target != 'none', 'f is None': target == 'none'}
+        while True:
+            t = _u(node.test)
+            if t not in truth:
+                _fail(f'{where}: unsupported test in the hand-over of the text', node.test)
+            if truth[t]:
+                return action(node.body)
+            if len(node.orelse) == 1 and isinstance(node.orelse[0], ast.If):
+                node = node.orelse[0]
+                continue
+            return action(node.orelse) if node.orelse else 'nothing'
+
+    res = {t: run(chains[0], t) for t in ('none', 'path', 'stream')}
+    if len(mode) != 1 or not isinstance(mode[0], str):
+        _fail(f'{where}: the file is not opened exactly once')
+    return res, mode[0]
+
+
+def _returns_tail(stmts, flag, extra, where):
+    """returns = [] ... if <flag> is True: returns.append(<extra>) ... one value bare, several as a tuple."""
+    texts = [_u(s) for s in stmts]
+    if texts.count('returns = []') != 1:
+        _fail(f'{where}: returns = [] not found exactly once')
+    end = _u(ast.parse('if len(returns) == 1:\n    return returns[0]\nelif len(returns) > 1:\n    return tuple(returns)').body[0])
+    if end not in texts[-2:]:
+        _fail(f'{where}: the return of one value / a tuple of values has changed')
+    flags = [s for s in stmts if isinstance(s, ast.If) and _u(s.test).startswith(flag)]
+    if len(flags) != 1 or not _is_stmt(flags[0].body[-1], f'returns.append({extra})') or flags[0].orelse:
+        _fail(f'{where}: the optional second return value has changed')
+    return _u(flags[0].test)
+
+
+def _lean_route(name, res, extra_param):
+    rows = []
+    for t in ('none', 'path', 'stream'):
+        rows.append(f'  | .{t if t != "path" else "path _"} => ⟨{"true" if res[t] == "return" else "false"}, {extra_param}, '
+                    f'{"true" if res[t] == "write" else "false"}⟩')
+    return (f'def {name} (t : Target) (wantExtra : Bool) : Delivered :=\n  match t with\n' + '\n'.join(rows))
+
+
+def _pin(fn_or_stmts):
+    import hashlib
+    stmts = _stmts(fn_or_stmts) if isinstance(fn_or_stmts, ast.FunctionDef) else fn_or_stmts
+    return hashlib.sha1('\n'.join(_u(s) for s in stmts).encode()).hexdigest()[:16]
+
+
+def _lean_sig(name, sig):
+    return (f'def {name} : List (String × String) :=\n  [' +
+            ', '.join(f'({_lean_q(a)}, {_lean_q(d)})' for a, d in sig) + ']')
+
+
+def _lean_q(s):
+    if '"' in s:
+        raise TranslationError(f'string {s!r} cannot be written as a Lean literal')
+    return '"' + s.replace('\\', '\\\\') + '"'
+
+
+def translate_writers():
+    L = ['/- GENERATED by harness/props/c07.py (translate_writers) from atomman/dump/atom_data/dump.py,',
+         '   atomman/dump/atom_dump/dump.py, atomman/dump/poscar/dump.py, atomman/dump/table/dump.py and',
+         '   atomman/dump/table/df_to_table.py with `ast` — do not edit.  Every definition is proved equal to the hand model',
+         '   in lean/Proofs/C07_Source.lean (`gen_…_eq_model`). -/',
+         'import Atomman.C07', 'set_option linter.unusedVariables false', 'namespace Atomman.Gen.WriterSource',
+         'open Atomman Atomman.C07', '']
+
+    # ---------------------------------------------------------------- atom_data/dump.py
+    rel = 'atomman/dump/atom_data/dump.py'
+    tree = _module(rel)
+    # box_content
+    fn = _func(tree, 'box_content', rel)
+    if _signature(fn) != [('system', '<required>'), ('units', '<required>'), ('float_format', '<required>')]:
+        _fail('box_content: signature changed')
+    T, lets = _Text('atom_data.box_content'), []
+
+    def other(st):
+        return _is_stmt(st, 'units_dict = style.unit(units)') or _is_stmt(st, "length_unit = units_dict['length']") \
+            or _box_value(st, T, lets, 'length_unit')
+    doc = _doc(T.where, _walk(T, _stmts(fn), 'content', other), False)
+    L += ['/-- `box_content`: the box lines of a data file (`lf` = the length unit of the unit style, `b` = the box of the',
+          '    wrapped system). -/',
+          'def genDataBoxLines (f : Fmt) (lf : Option Rat) (b : HiLo) : Doc :=', *lets, '  ' + doc, '']
+    # info_content
+    fn = _func(tree, 'info_content', rel)
+    L += [_lean_sig('infoSignature', _signature(fn)), '']
+    T = _Text('atom_data.info_content', strvars={'units': ('tok', 'units'), 'atom_style': ('words', '(styleWords style).map strTok'),
+                                                 'f': ('tok', 'n')},
+              conds={'isinstance(f, str)': ('match', 'fname', 'n')})
+    seen = {}
+
+    def other(st):
+        if isinstance(st, ast.Assign) and _is(st.targets[0], 'bflags') and isinstance(st.value, ast.Call) \
+                and _is(st.value.func, 'np.array') and len(st.value.args) == 1 and isinstance(st.value.args[0], ast.List) \
+                and len(st.value.args[0].elts) == 3 and all(isinstance(e, ast.Constant) and isinstance(e.value, str) for e in st.value.args[0].elts):
+            seen['off'] = [e.value for e in st.value.args[0].elts]
+            return True
+        if isinstance(st, ast.Assign) and _is(st.targets[0], 'bflags[system.pbc]') and isinstance(st.value, ast.Constant) \
+                and isinstance(st.value.value, str) and 'off' in seen:
+            for k, c in enumerate(_V3C):
+                T.strvars[f'bflags[{k}]'] = ('rawtok', f'(if pbc.{c} then {_lean_chars(st.value.value)} else {_lean_chars(seen["off"][k])})')
+            return True
+        return False
+    doc = _doc(T.where, _walk(T, _stmts(fn), 'info', other), False)
+    L += ['/-- `info_content`: the command snippet. -/',
+          'def genInfoDoc (pbc : V3 Bool) (style units : String) (fname : Option String) : Doc :=', '  ' + doc, '']
+    # atoms_content
+    fn = _func(tree, 'atoms_content', rel)
+    if [a for a, _d in _signature(fn)] != ['system', 'imageflags', 'atom_style', 'units', 'float_format']:
+        _fail('atoms_content: signature changed')
+    T = _Text('atom_data.atoms_content', strvars={'atom_style': ('words', '(styleWords style).map strTok')})
+    call = 'dump_table(system, prop_info=prop_info, float_format=float_format, extra=extra)'
+
+    def block(n):
+        if not _is(n, call):
+            _fail('atoms_content: the table call has changed', n)
+        return 'atomRows'
+    T.blocks['dump_table'] = block
+    flags = {}
+
+    def other(st):
+        if _is_stmt(st, 'prop_info = atoms_prop_info(atom_style, units)'):
+            return True
+        if isinstance(st, ast.If) and _u(st.test).startswith('np.allclose(imageflags'):
+            flags['when'] = _u(st.test)
+            if not (len(st.body) == 1 and _is_stmt(st.body[0], 'extra = None') and st.orelse
+                    and _is_stmt(st.orelse[0], 'extra = OrderedDict()')):
+                _fail('atoms_content: image flag columns', st)
+            cols = []
+            for s in st.orelse[1:]:
+                if not (isinstance(s, ast.Assign) and isinstance(s.targets[0], ast.Subscript) and _is(s.targets[0].value, 'extra')
+                        and isinstance(s.targets[0].slice, ast.Constant) and isinstance(s.value, ast.Subscript)
+                        and _is(s.value.value, 'imageflags') and isinstance(s.value.slice, ast.Tuple)
+                        and _u(s.value.slice.elts[0]) == ':' and isinstance(s.value.slice.elts[1], ast.Constant)):
+                    _fail('atoms_content: image flag column', s)
+                cols.append((s.targets[0].slice.value, s.value.slice.elts[1].value))
+            flags['cols'] = cols
+            return True
+        return False
+    doc = _doc(T.where, _walk(T, _stmts(fn), 'content', other), False)
+    if 'cols' not in flags:
+        _fail('atoms_content: image flag columns not found')
+    L += ['/-- `atoms_content`: the `Atoms # style` section around the table of atom lines. -/',
+          'def genAtomsSection (style : String) (atomRows : Doc) : Doc :=', '  ' + doc, '',
+          '/-- the extra columns of the atom table: (name, column of the image-flag array), in the order written. -/',
+          'def genFlagColumns : List (String × Nat) := [' + ', '.join(f'({_lean_q(a)}, {int(b)})' for a, b in flags['cols']) + ']',
+          '/-- the test under which no image-flag columns are written. -/',
+          f'def genFlagsOmittedWhen : String := {_lean_q(flags["when"])}', '']
+    # dump
+    fn = _func(tree, 'dump', rel)
+    L += [_lean_sig('dataSignature', _signature(fn)), '']
+    stmts = _stmts(fn)
+    cut = [k for k, s in enumerate(stmts) if _is_stmt(s, 'returns = []')]
+    if len(cut) != 1:
+        _fail('atom_data.dump: returns = [] not found exactly once')
+    head, tail = stmts[:cut[0]], stmts[cut[0]:]
+    T = _Text('atom_data.dump', intvars={'system.natoms': ('nat', 'natoms'), 'natypes': ('nat', 'natypes')},
+              conds={"'velocity' in system.atoms_prop()": ('match', 'vel', 'velRows')})
+    T.blocks['box_content'] = lambda n: 'box' if _is(n, 'box_content(system, units, float_format)') else _fail('dump: box_content call', n)
+    T.blocks['atoms_content'] = lambda n: 'atomsSection' if _is(n, 'atoms_content(system, imageflags, atom_style, units, float_format)') else _fail('dump: atoms_content call', n)
+    T.blocks['dump_table'] = lambda n: 'velRows' if _is(n, 'dump_table(system, prop_info=prop_info, float_format=float_format)') else _fail('dump: velocity table call', n)
+    resolve = {}
+
+    def other(st):
+        if _is_stmt(st, 'if safecopy:\n    system = deepcopy(system)') or _is_stmt(st, 'imageflags = system.wrap(return_imageflags=True)') \
+                or _is_stmt(st, 'prop_info = velocities_prop_info(atom_style, units)'):
+            return True
+        if isinstance(st, ast.If) and _is(st.test, 'potential is not None'):
+            for key, body in (('pot', st.body), ('nopot', st.orelse)):
+                got = {}
+                for s in body:
+                    if not (isinstance(s, ast.If) and isinstance(s.test, ast.Compare) and _u(s.test).endswith(' is None')
+                            and len(s.body) == 1 and not s.orelse and isinstance(s.body[0], ast.Assign)
+                            and _u(s.body[0].targets[0]) == _u(s.test.left)):
+                        _fail('atom_data.dump: argument defaults', s)
+                    got[_u(s.test.left)] = s.body[0].value
+                if sorted(got) != ['atom_style', 'natypes', 'units']:
+                    _fail('atom_data.dump: argument defaults', st)
+                resolve[key] = got
+            return True
+        return False
+    doc = _doc(T.where, _walk(T, head, 'content', other), False)
+    if 'pot' not in resolve:
+        _fail('atom_data.dump: argument defaults not found')
+
+    def rv(n, key):
+        table = {'potential.units': 'p.units', 'potential.atom_style': 'p.atomStyle',
+                 'len(potential.normalize_symbols(system.symbols))': 'p.natypes', 'system.natypes': 'sysNatypes'}
+        if isinstance(n, ast.Constant) and isinstance(n.value, str):
+            return _lean_str(n.value)
+        if _u(n) in table and (key == 'pot' or not _u(n).startswith(('potential', 'len(potential'))):
+            return table[_u(n)]
+        _fail('atom_data.dump: default value', n)
+    arms = []
+    for key, pat in (('pot', 'some p'), ('nopot', 'none')):
+        r = resolve[key]
+        arms.append(f'  | {pat} => (unitsArg.getD {rv(r["units"], key)}, styleArg.getD {rv(r["atom_style"], key)}, '
+                    f'natypesArg.getD {rv(r["natypes"], key)})')
+    L += ['/-- head of `dump`: an argument that is None is taken from the potential when there is one, else the default. -/',
+          'def genResolveArgs (unitsArg styleArg : Option String) (natypesArg : Option Nat) (pot : Option PotArgs)',
+          '    (sysNatypes : Nat) : String × String × Nat :=', '  match pot with', *arms, '',
+          '/-- the text `dump` concatenates: counts, box lines, Atoms section, Velocities section when the system has velocities. -/',
+          'def genDataDoc (natoms natypes : Nat) (box atomsSection : Doc) (vel : Option Doc) : Doc :=', '  ' + doc, '']
+    res, mode = _route(tail, 'content', 'atom_data.dump')
+    flag = _returns_tail(tail, 'return_info', 'read_info', 'atom_data.dump')
+    L += [_lean_route('genDataDeliver', res, 'wantExtra'), f'def genDataFileMode : String := {_lean_q(mode)}',
+          f'def genDataExtraWhen : String := {_lean_q(flag)}', '']
+
+    # ---------------------------------------------------------------- atom_dump/dump.py
+    rel = 'atomman/dump/atom_dump/dump.py'
+    tree = _module(rel)
+    fn = _func(tree, 'dump', rel)
+    L += [_lean_sig('dumpSignature', _signature(fn)), '']
+    stmts = _stmts(fn)
+    start = [k for k, s in enumerate(stmts) if _is_stmt(s, "content = 'ITEM: TIMESTEP\\n'")]
+    cut = [k for k, s in enumerate(stmts) if _is_stmt(s, 'returns = []')]
+    if len(start) != 1 or len(cut) != 1:
+        _fail('atom_dump.dump: start of the text / returns = [] not found exactly once')
+    pre, body, tail = stmts[:start[0]], stmts[start[0]:cut[0]], stmts[cut[0]:]
+    if not any(_is_stmt(s, 'lammps_unit = style.unit(lammps_units)') for s in pre):
+        _fail('atom_dump.dump: lammps_unit = style.unit(lammps_units) not found')
+    # the header line of the ATOMS item
+    hk = [k for k, s in enumerate(body) if _is_stmt(s, "header = 'ITEM: ATOMS'")]
+    want = ["for prop in prop_info:\n    header += ' ' + ' '.join(prop['table_name'])", "header += '\\n'", 'content += header']
+    if len(hk) != 1 or [_u(s) for s in body[hk[0] + 1:hk[0] + 4]] != [_u(ast.parse(w).body[0]) for w in want]:
+        _fail('atom_dump.dump: the ITEM: ATOMS line has changed')
+    marker = ast.parse('content += __atoms_header__').body[0]
+    body = body[:hk[0]] + [marker] + body[hk[0] + 4:]
+    T, lets = _Text('atom_dump.dump', intvars={'system.natoms': ('nat', 'natoms')}, conds=dict(_PBC)), []
+    T.strvars['__atoms_header__'] = ('pieces', [('lit', 'ITEM: ATOMS '), ('splice', 'names'), ('lit', '\n')])
+    ts = _u(ast.parse("try:\n    content += '%i\\n' % system.timestep\nexcept:\n    content += '0\\n'").body[0])
+    T.special[ts] = [('int', 'int', 'step'), ('lit', '\n')]
+    T.blocks['table_dump'] = lambda n: 'rows' if _is(n, 'table_dump(system, prop_info=prop_info, float_format=float_format)') else _fail('atom_dump.dump: table call', n)
+
+    def other(st):
+        if _box_value(st, T, lets, "lammps_unit['length']"):
+            return True
+        if isinstance(st, ast.Assign) and isinstance(st.targets[0], ast.Name) and st.targets[0].id.endswith('_bound'):
+            lets.append(f'  let {st.targets[0].id} := {T.num(st.value)}')
+            T.numvars[st.targets[0].id] = True
+            return True
+        if isinstance(st, ast.Assign) and _is(st.targets[0], 'is_orthogonal'):
+            lets.append(f'  let is_orthogonal : Bool := decide {T.cond(st.value)}')
+            T.conds['is_orthogonal'] = 'is_orthogonal'
+            return True
+        return False
+    doc = _doc(T.where, _walk(T, body, 'content', other), False)
+    if ts not in [_u(s) for s in body]:
+        _fail('atom_dump.dump: the TIMESTEP item has changed')
+    L += ['/-- the text `atom_dump.dump` concatenates (`step` = `StepVal.step` of what the system holds, `names` = the column',
+          '    names of all entries of prop_info in order, `rows` = the table). -/',
+          'def genDumpDoc (f : Fmt) (lf : Option Rat) (b : HiLo) (pbc : V3 Bool) (step : Int) (natoms : Nat) (names : Line)',
+          '    (rows : Doc) : Doc :=', *lets, '  ' + doc, '']
+    res, mode = _route(tail, 'content', 'atom_dump.dump')
+    flag = _returns_tail(tail, 'return_prop_info', 'prop_info', 'atom_dump.dump')
+    L += [_lean_route('genDumpDeliver', res, 'wantExtra'), f'def genDumpFileMode : String := {_lean_q(mode)}',
+          f'def genDumpExtraWhen : String := {_lean_q(flag)}',
+          '/-- normalised-AST pins: the default prop_name / shape handling in front of the text, and `table_dump`. -/',
+          f'def genDumpHeadPin : String := "{_pin(pre)}"',
+          f'def genDumpTablePin : String := "{_pin(_func(tree, "table_dump", rel))}"', '']
+
+    # ---------------------------------------------------------------- poscar/dump.py
+    rel = 'atomman/dump/poscar/dump.py'
+    tree = _module(rel)
+    fn = _func(tree, 'dump', rel)
+    L += [_lean_sig('poscarSignature', _signature(fn)), '']
+    stmts = _stmts(fn)
+    rk = [k for k, s in enumerate(stmts) if isinstance(s, ast.If) and _is(s.test, "hasattr(f, 'write')")]
+    if len(rk) != 1 or rk[0] != len(stmts) - 1:
+        _fail('poscar.dump: the hand-over of the text is not the last statement')
+    body, tail = stmts[:rk[0]], stmts[rk[0]:]
+    T = _Text('poscar.dump', strvars={'header': ('words', 'header.map strTok'), 'coordstyle': ('tok', 'coordstyle')},
+              numvars={'box_scale': 'scale'}, conds={'symbols is not None': ('match', 'symbols', 'l')},
+              splices={'symbols': 'l.map strTok'})
+    for k, c in enumerate(('r0', 'r1', 'r2')):
+        T.v3vars[f'vects[{k}]'] = f'(v3div vects.{c} scale)'
+    T.v3vars['p'] = 'p'
+    counts = _u(ast.parse("for i in range(1, system.natypes + 1):\n    count = counts[uatype == i]\n    if len(count) == 0:\n"
+                          "        count = 0\n    else:\n        count = count[0]\n    poscar_string += '%i ' % count").body[0])
+    T.special[counts] = [('splice+', 'counts.map natTok')]
+    info = {'asserts': [], 'refuse': None, 'cart': None}
+    rows = []
+
+    def other(st):
+        if isinstance(st, ast.Assert):
+            info['asserts'].append(_u(st.test))
+            return True
+        if isinstance(st, ast.If) and len(st.body) == 1 and isinstance(st.body[0], ast.Raise) and not st.orelse \
+                and 'box_scale' in _u(st.test):
+            if not _u(st.body[0].exc).startswith('ValueError('):
+                _fail('poscar.dump: refusal of a scale factor', st)
+            info['refuse'] = T.cond(st.test)
+            return True
+        if _is_stmt(st, 'vects = system.box.vects / box_scale'):
+            return True
+        if _is_stmt(st, 'if symbols is None:\n    if None not in system.symbols:\n        symbols = system.symbols'):
+            return True
+        if _is_stmt(st, 'if not isinstance(symbols, (list, tuple)):\n    symbols = [symbols]'):
+            return True
+        if _is_stmt(st, "if len(symbols) != system.natypes:\n    raise ValueError('length of symbols differs from number of atom types')"):
+            return True
+        if _is_stmt(st, 'atype = system.atoms.atype') or _is_stmt(st, 'uatype, counts = np.unique(atype, return_counts=True)') \
+                or _is_stmt(st, "pos = system.atoms_prop(key='pos', scale=scale)") \
+                or _is_stmt(st, 'if scale is False:\n    pos = pos / box_scale'):
+            return True
+        if isinstance(st, ast.If) and isinstance(st.test, ast.Compare) and _is(st.test.left, 'coordstyle[0]') \
+                and isinstance(st.test.ops[0], ast.In) and isinstance(st.test.comparators[0], ast.Constant) \
+                and _is_stmt(st.body[0], 'scale = False') and st.orelse and _is_stmt(st.orelse[0], 'scale = True'):
+            info['cart'] = st.test.comparators[0].value
+            return True
+        if isinstance(st, ast.For) and _is(st.iter, 'range(1, system.natypes + 1)') and _is(st.target, 'a'):
+            inner = st.body[0] if len(st.body) == 1 else None
+            if not (isinstance(inner, ast.For) and _is(inner.iter, 'pos[atype == a]') and _is(inner.target, 'p')
+                    and len(inner.body) == 1 and isinstance(inner.body[0], ast.AugAssign)):
+                _fail('poscar.dump: the coordinate rows', st)
+            pcs = T.text(inner.body[0].value)
+            if not pcs or pcs[0] != ('lit', '\n'):
+                _fail('poscar.dump: a coordinate row does not start a new line', st)
+            rows.append(_tokens(T.where, pcs[1:]))
+            return True
+        return False
+    # the rows loop adds a block at its position: mark it
+    pieces = []
+    k_rows = [k for k, s in enumerate(body) if isinstance(s, ast.For) and _is(s.target, 'a')]
+    if len(k_rows) != 1 or k_rows[0] != len(body) - 1:
+        _fail('poscar.dump: the coordinate rows are not the last part of the text')
+    pieces = _walk(T, body, 'poscar_string', other, True)
+    if len(rows) != 1 or info['refuse'] is None or info['cart'] is None:
+        _fail('poscar.dump: refusal / mode test / rows not found')
+    pieces.append(('block', f'coords.map (fun p => {rows[0]})'))
+    doc = _doc(T.where, pieces, True)
+    if counts not in [_u(s) for s in body]:
+        _fail('poscar.dump: the counts line has changed')
+    L += ['/-- the text `poscar.dump` builds (`vects` = the cell vectors, `counts` = atoms per type 1..natypes, `coords` = the',
+          '    rows grouped by type, Cartesian ones already divided by the factor). -/',
+          'def genPoscarDoc (f : Fmt) (header : List String) (scale : Rat) (vects : M3 Rat) (symbols : Option (List String))',
+          '    (counts : List Nat) (coordstyle : String) (coords : List (V3 Rat)) : Doc :=', '  ' + doc, '',
+          '/-- the factor is refused when … -/', f'def genPoscarRefuses (scale : Rat) : Prop := {info["refuse"]}',
+          '/-- first letters of the mode line that select Cartesian coordinates. -/',
+          'def genCartesianChars : List Char := [' + ', '.join(f"'{c}'" for c in info['cart']) + ']',
+          '/-- what must not occur in the comment / mode line. -/',
+          'def genPoscarAsserts : List String := [' + ', '.join(_lean_q(a) for a in info['asserts']) + ']', '']
+    res, mode = _route(tail, 'poscar_string', 'poscar.dump')
+    L += [_lean_route('genPoscarDeliver', res, 'false'), f'def genPoscarFileMode : String := {_lean_q(mode)}', '']
+
+    # ---------------------------------------------------------------- table/dump.py, table/df_to_table.py
+    rel = 'atomman/dump/table/dump.py'
+    tree = _module(rel)
+    fn = _func(tree, 'dump', rel)
+    L += [_lean_sig('tableSignature', _signature(fn)), '']
+    stmts = _stmts(fn)
+    ids = [s for s in stmts if isinstance(s, ast.Assign) and _is(s.targets[0], "df['a_id']")]
+    if len(ids) != 1 or not (isinstance(ids[0].value, ast.Call) and _is(ids[0].value.func, 'range') and len(ids[0].value.args) == 2
+                             and isinstance(ids[0].value.args[0], ast.Constant) and _is(ids[0].value.args[1], 'natoms + 1')):
+        _fail('table.dump: the a_id column has changed')
+    conv = [n for n in ast.walk(fn) if isinstance(n, ast.If) and any(isinstance(c, ast.Call) and _is(c.func, 'uc.get_in_units')
+                                                                     for c in ast.walk(n))]
+    scal = [n for n in ast.walk(fn) if isinstance(n, ast.If) and any(isinstance(c, ast.Call) and _is(c.func, 'scale.append')
+                                                                     for c in ast.walk(n))]
+    if len(conv) != 1 or len(scal) != 1:
+        _fail('table.dump: the unit conversion / the list of scaled properties has changed')
+    flag = _returns_tail(stmts, 'return_prop_info', 'prop_info', 'table.dump')
+    tab = [s for s in stmts if isinstance(s, ast.Assign) and _is(s.targets[0], 'table')]
+    if len(tab) != 1 or not _is(tab[0].value, 'df_to_table(df, f=f, header=header, float_format=float_format)'):
+        _fail('table.dump: the call of df_to_table has changed')
+    if not any(_is_stmt(s, 'if table is not None:\n    returns.append(table)') for s in stmts):
+        _fail('table.dump: the returned table')
+    rel2 = 'atomman/dump/table/df_to_table.py'
+    fn2 = _func(_module(rel2), 'df_to_table', rel2)
+    res, mode = _route(_stmts(fn2), 'table', 'df_to_table')
+    L += ['/-- first value of the `a_id` column (`range(<this>, natoms + 1)`). -/',
+          f'def genTableFirstId : Int := {int(ids[0].value.args[0].value)}',
+          '/-- a column is divided by its unit when … / is box-relative when … -/',
+          f'def genTableConvertsWhen : String := {_lean_q(_u(conv[0].test))}',
+          f'def genTableScaledWhen : String := {_lean_q(_u(scal[0].test))}',
+          _lean_route('genTableDeliver', res, 'wantExtra'), f'def genTableFileMode : String := {_lean_q(mode)}',
+          f'def genTableExtraWhen : String := {_lean_q(flag)}',
+          '/-- normalised-AST pins: `table.dump` (column assembly with pandas) and `df_to_table`. -/',
+          f'def genTablePin : String := "{_pin(fn)}"', f'def genDfToTablePin : String := "{_pin(fn2)}"', '',
+          'end Atomman.Gen.WriterSource', '']
+    return '\n'.join(L)
+
+
 def translate():
     t = extract_tables()
     L = ['/- GENERATED by harness/props/c07.py from atomman/dump/atom_data/{atoms,velocities}_prop_info.py,',
@@ -291,7 +1126,7 @@ def translate():
     L.append(',\n'.join(rows) + ']')
     L.append('')
     L.append('end Atomman.Gen.AtomStyles\n')
-    return {'AtomStyles': '\n'.join(L)}
+    return {'AtomStyles': '\n'.join(L), 'WriterSource': translate_writers()}
 
 
 # ----------------------------------------------------------------------------------------
@@ -324,6 +1159,16 @@ THEOREMS = [
     # fourth round: derived units are composed of the style's own entries (distance x velocity x mass, 1/time,
     # distance^3); the TIMESTEP item is the whole number the system holds, whatever numeric type carries it
     'C07.derived_units_composed', 'C07.step_of_whole_number', 'C07.dump_timestep_line',
+    # sixth round (source tie of the writer code): every definition regenerated from the four dump.py files equals the
+    # hand model
+    'C07.gen_dataBoxLines_eq_model', 'C07.gen_infoDoc_eq_model', 'C07.gen_resolveArgs_eq_model', 'C07.gen_dataDoc_eq_model',
+    'C07.gen_flagColumns_eq_model', 'C07.gen_dataDeliver_eq_model', 'C07.gen_dumpDeliver_eq_model',
+    'C07.gen_tableDeliver_eq_model', 'C07.gen_poscarDeliver_eq_model', 'C07.gen_fileModes_eq_model',
+    'C07.gen_signatures_eq_model', 'C07.gen_dumpDoc_eq_model', 'C07.gen_poscarDoc_eq_model',
+    'C07.gen_poscarRefuses_eq_model', 'C07.gen_cartesianChars_eq_model', 'C07.gen_tableIds_eq_model',
+    'C07.gen_tableUnits_eq_model', 'C07.gen_pins_eq_model',
+    # whole calls: where the text goes; the generated documents under the whole-file theorems; refusals of poscar.dump
+    'C07.deliver_spec', 'C07.gen_files_are_model_files', 'C07.poscar_refusal_iff', 'C07.data_call_end_to_end',
 ]
 PARTIAL = {
     'inside the written bounds / lo < hi AFTER rounding':
@@ -3319,6 +4164,7 @@ def correspond(ctx):
     cases += posvariant_cases(ctx.seed, False)
     for i in range(0, len(cases), 200):
         run_cases(ctx, cases[i:i + 200])
+    route_cases(ctx, ctx.disagree)
     # bounding-box map and its inverse on their own
     lines, hs = [], []
     for _ in range(ctx.n(200, 4000)):
@@ -3335,6 +4181,88 @@ def correspond(ctx):
         if vals[:6] != want or vals[6:] != h:
             ctx.disagree('bbox', f'bounding box of {h}: model {vals[:6]}, LAMMPS formula {want}', {'op': 'bbox', 'h': [str(x) for x in h]})
 
+
+
+ROUTE_KINDS = {'data': ('atom_data', 'return_info'), 'dump': ('atom_dump', 'return_prop_info'),
+               'table': ('table', 'return_prop_info'), 'poscar': ('poscar', None)}
+
+
+def route_observe(d, kind, target, want):
+    """one real call of a writer with f = nothing / a file name / an open stream and its second return value asked for
+    or not -> (text among the returned values?, another value returned?, text arrived in the target?, number of
+    returned values, does the snippet name the target?) or an error string."""
+    import io
+    import os
+    import shutil
+    import tempfile
+    fmt, flag = ROUTE_KINDS[kind]
+    kw = {}
+    if kind == 'data':
+        kw['safecopy'] = True
+    ref = build_system(d).dump(fmt, **({flag: False} if flag else {}), **kw)
+    if not isinstance(ref, str):
+        return f'without a target and without the second value the call returns {type(ref).__name__}, not the text'
+    if flag:
+        kw[flag] = bool(want)
+    tmp = tempfile.mkdtemp(prefix='c07r_')
+    cwd = os.getcwd()
+    os.chdir(tmp)
+    try:
+        if target == 'none':
+            r, arrived = build_system(d).dump(fmt, **kw), None
+        elif target == 'stream':
+            buf = io.StringIO()
+            r, arrived = build_system(d).dump(fmt, f=buf, **kw), None
+            arrived = buf.getvalue()
+        else:
+            r = build_system(d).dump(fmt, f='route.out', **kw)
+            arrived = open('route.out', newline='').read() if os.path.exists('route.out') else None
+    finally:
+        os.chdir(cwd)
+        shutil.rmtree(tmp, ignore_errors=True)
+    vals = [] if r is None else list(r) if isinstance(r, tuple) else [r]
+    has_text = any(isinstance(v, str) and v == ref for v in vals)
+    others = [v for v in vals if not (isinstance(v, str) and v == ref)]
+    names = any(isinstance(v, str) and 'read_data route.out' in v for v in others)
+    if arrived is not None and arrived != ref and arrived != '':
+        return f'the target holds {arrived[:60]!r}..., not the text the call returns without a target'
+    return (has_text, bool(others), arrived == ref, len(vals), names)
+
+
+def route_cases(ctx, report, use_model=True, d=None, only=None):
+    """where the text goes (model: `deliver`, proved equal to the tail of every writer as the source has it): every
+    writer x {no target, file name, open stream} x second return value asked for or not.  In the search the expected
+    outcome is written down independently: the text is returned exactly when no target is given, else it arrives in
+    the target; the second value comes back exactly when asked for; only a file name is named by the snippet."""
+    rng = random.Random(ctx.seed * 7919 + 11)
+    d = d or gen_desc(rng, 'grid', props=(), nmax=4)
+    combos = [(k, t, w) for k in ROUTE_KINDS for t in ('none', 'path', 'stream') for w in (0, 1)]
+    if only:
+        combos = [tuple(only)]
+    outs = ctx.driver.ask_many([f'route {k} {t} {w}' for k, t, w in combos]) if use_model else [None] * len(combos)
+    for (k, t, w), o in zip(combos, outs):
+        if use_model:
+            p = o.split()
+            if p[0] != 'ok':
+                raise cm.InfraError(f'model driver: {o} for route {k} {t} {w}')
+            model_t = (p[1] == '1', p[2] == '1', p[3] == '1', int(p[4]), p[5] == '1' and k == 'data' and w == 1)
+        else:
+            second = bool(w) and k != 'poscar'
+            model_t = (t == 'none', second, t != 'none', int(t == 'none') + int(second), k == 'data' and second and t == 'path')
+        try:
+            real = route_observe(d, k, t, w)
+        except Exception as e:  # noqa
+            real = f'{type(e).__name__}: {e}'
+        ctx.stats.case('route', (k, t, w), sample={'writer': k, 'target': t, 'second_value': w})
+        model = model_t
+        if real != model:
+            what = real if isinstance(real, str) else (
+                f'text returned {real[0]}, second value returned {real[1]}, text in the target {real[2]}, {real[3]} returned '
+                f'values, snippet names the file {real[4]}')
+            report(f'{k}:route', f'{ROUTE_KINDS[k][0]} dump with f = {t} and {ROUTE_KINDS[k][1]} = {bool(w)}: {what}; expected: '
+                                 f'text returned {model[0]}, second value {model[1]}, text in the target {model[2]}, '
+                                 f'{model[3]} returned values, snippet names the file {model[4]}',
+                   {'op': 'route', 'writer': k, 'target': t, 'want': w, 'd': case_replay({'d': d})['d']})
 
 
 # ----------------------------------------------------------------------------------------
@@ -3696,6 +4624,7 @@ def search(ctx, broken):
     # pinned regression inputs (simple systems that exposed defects before)
     for c in pinned_cases():
         oracle_case(ctx, c, report)
+    route_cases(ctx, report, use_model=False)
     if ctx.thorough:
         for c in huge_cases(ctx.seed):
             oracle_case(ctx, c, report)
@@ -3746,6 +4675,11 @@ def replay(ctx, payload):
         print('violations on this input:', [(f.key, f.what) for f in ctx.violations[before:]])
     elif r.get('op') == 'fmt':
         print('fmt', fmt_py(r['ff']) % r['v'])
+    elif r.get('op') == 'route':
+        before = len(ctx.violations)
+        route_cases(ctx, ctx.violate, use_model=False, d=case_from_replay({'d': r['d']})['d'], only=(r['writer'], r['target'], r['want']))
+        print('replay route', r['writer'], r['target'], r['want'])
+        print('violations on this input:', [(f.key, f.what) for f in ctx.violations[before:]])
     else:
         search(ctx, True)
     ensure_wu(None)
